@@ -27,6 +27,10 @@ open CaddyModel.C14
 #print axioms autosave_only_if_persist_enabled
 #print axioms autosave_only_accepted_configs
 #print axioms autosave_recovers_after_interrupted_autosave
+-- the resume side (cmdRun --resume, --envfile, AppConfigDir)
+#print axioms writerDir_is_env_after_files
+#print axioms resume_reads_where_autosave_writes
+#print axioms resume_recovers_latest_push
 -- the calculus everything above rests on
 #print axioms wp_sound
 #print axioms wpn_sound
@@ -40,3 +44,4 @@ open CaddyModel.C14
 #print axioms ca_write_order_matches_source
 #print axioms autosave_program_matches_source
 #print axioms inPlace_store_not_atomic
+#print axioms resume_before_envfiles_fails
